@@ -72,12 +72,20 @@ func parseRace(blk string) raceReport {
 		}
 		// frames follow: "  func()" then "      file:line +0x.."
 		fn, file := "", ""
+		first := true
 		for j := i + 1; j+1 < len(lines); j += 2 {
 			f := strings.TrimSpace(lines[j])
 			if f == "" || !strings.HasPrefix(lines[j], "  ") {
 				break
 			}
 			loc := strings.TrimSpace(lines[j+1])
+			if first && strings.Contains(loc, "/rosim/") {
+				// the access itself is made by kernel/shim code on its own memory (closures of
+				// //go:norace functions are still instrumented): not the library's memory
+				fn, file = f, loc
+				break
+			}
+			first = false
 			if skipFrame(f, loc) {
 				continue
 			}
